@@ -836,5 +836,12 @@ package table
 // from C10 "what is read back equals what was configured": the origin CONDITION of a statement is read back from
 // the condition (not from the set-route-origin action, which is a different thing)
 //@ func toStatementApi
-//@   claims at-return
+//@   claims at-return at-call
 //@   at-return requires called(ToOriginApi)
+//@   at-call ToOriginApi(s.Conditions requires arg0 == s.Conditions.BgpConditions.OriginEq
+//@ func ToOriginApi
+//@   claims post
+//@   ensures o == oc.BGP_ORIGIN_ATTR_TYPE_IGP ==> result == api.OriginType_ORIGIN_TYPE_IGP
+//@   ensures o == oc.BGP_ORIGIN_ATTR_TYPE_EGP ==> result == api.OriginType_ORIGIN_TYPE_EGP
+//@   ensures o == oc.BGP_ORIGIN_ATTR_TYPE_INCOMPLETE ==> result == api.OriginType_ORIGIN_TYPE_INCOMPLETE
+//@   ensures o != oc.BGP_ORIGIN_ATTR_TYPE_IGP && o != oc.BGP_ORIGIN_ATTR_TYPE_EGP && o != oc.BGP_ORIGIN_ATTR_TYPE_INCOMPLETE ==> result == api.OriginType_ORIGIN_TYPE_UNSPECIFIED
